@@ -2,6 +2,7 @@
 package c10
 
 import (
+	"strconv"
 	"bytes"
 	"fmt"
 	"math"
@@ -891,6 +892,30 @@ type myUint uint64
 type myStr string
 type myStruct struct{ A int }
 
+// "loud" types: the same underlying kinds, with the method sets of the text / JSON / binary marshalling interfaces,
+// fmt.Stringer and error on top (enums, levels, tag lists as applications define them). What a value IS does not
+// depend on what it can print itself as: an integer is stored as that integer (or rejected).
+type loudInt int64
+type loudStr string
+type loudSlice []string
+type loudBool bool
+type loudFloat float64
+
+func (l loudInt) MarshalText() ([]byte, error)     { return []byte("level-" + strconv.FormatInt(int64(l), 10)), nil }
+func (l loudInt) String() string                   { return "LEVEL" }
+func (l loudInt) MarshalJSON() ([]byte, error)     { return []byte(`"json-level"`), nil }
+func (l loudInt) MarshalBinary() ([]byte, error)   { return []byte{0xff}, nil }
+func (l loudInt) Error() string                    { return "loud" }
+func (l loudStr) MarshalText() ([]byte, error)     { return []byte("text:" + string(l)), nil }
+func (l loudStr) String() string                   { return "STR" }
+func (l loudStr) MarshalJSON() ([]byte, error)     { return []byte(`"json-str"`), nil }
+func (l loudSlice) MarshalText() ([]byte, error)   { return []byte(strings.Join(l, ",")), nil }
+func (l loudSlice) String() string                 { return "SLICE" }
+func (l loudBool) MarshalText() ([]byte, error)    { return []byte("yes"), nil }
+func (l loudBool) String() string                  { return "BOOL" }
+func (l loudFloat) MarshalText() ([]byte, error)   { return []byte("1e0"), nil }
+func (l loudFloat) MarshalBinary() ([]byte, error) { return []byte{1}, nil }
+
 // build returns the Go value and what must be stored: (node, true) when the
 // value is representable, (nil, false) when it must be rejected. spec=false
 // when the statement does not settle it.
@@ -930,6 +955,25 @@ func (g GoVal) build() (v any, want *val.V, mustReject bool, spec bool) {
 	case "myInt":
 		v = myInt(g.I)
 		want, mustReject = okInt(g.I)
+	case "loudInt":
+		v = loudInt(g.I)
+		want, mustReject = okInt(g.I)
+	case "loudStr":
+		v = loudStr(g.S)
+		x := val.Str(g.S)
+		want = &x
+	case "loudSlice":
+		v = loudSlice{"a", g.S, "c"}
+		x := val.List(val.Str("a"), val.Str(g.S), val.Str("c"))
+		want = &x
+	case "loudBool":
+		v = loudBool(g.I != 0)
+		x := val.Bool(g.I != 0)
+		want = &x
+	case "loudFloat":
+		v = loudFloat(g.F)
+		x := val.Float(g.F)
+		want = &x
 	case "uint":
 		v = uint(g.U)
 		want, mustReject = okUint(g.U)
@@ -1311,12 +1355,12 @@ func runVal(c *h.Ctx, vc ValCase) {
 
 var intEdges = []int64{0, 1, -1, 127, -128, 255, 32767, -32768, 65535, math.MaxInt32, math.MinInt32, math.MaxUint32, maxSafe - 1, maxSafe, maxSafe + 1, -maxSafe, -maxSafe - 1, math.MaxInt64, math.MinInt64, math.MaxInt64 - 1}
 var uintEdges = []uint64{0, 1, 255, 256, 65535, 65536, math.MaxUint32, maxSafe - 1, maxSafe, maxSafe + 1, math.MaxInt64, math.MaxInt64 + 1, math.MaxUint64 - 4, math.MaxUint64}
-var scalarTypes = []string{"int", "int8", "int16", "int32", "int64", "myInt", "uint", "uint8", "uint16", "uint32", "uint64", "uintptr", "myUint", "float64", "float32", "string", "myStr", "bool", "bytes", "nil", "struct", "chan", "func", "intkeymap", "nilptr"}
+var scalarTypes = []string{"int", "int8", "int16", "int32", "int64", "myInt", "uint", "uint8", "uint16", "uint32", "uint64", "uintptr", "myUint", "float64", "float32", "string", "myStr", "bool", "bytes", "nil", "struct", "chan", "func", "intkeymap", "nilptr", "loudInt", "loudStr", "loudSlice", "loudBool", "loudFloat"}
 
 func drawScalar(t *rapid.T, label string) GoVal {
 	g := GoVal{T: rapid.SampledFrom(scalarTypes).Draw(t, label+"_t")}
 	switch {
-	case strings.HasPrefix(g.T, "int") || g.T == "myInt" || g.T == "struct" || g.T == "bool":
+	case strings.HasPrefix(g.T, "int") || g.T == "myInt" || g.T == "struct" || g.T == "bool" || g.T == "loudInt" || g.T == "loudBool":
 		if rapid.Bool().Draw(t, label+"_edge") {
 			g.I = rapid.SampledFrom(intEdges).Draw(t, label+"_ie")
 		} else {
@@ -1328,8 +1372,10 @@ func drawScalar(t *rapid.T, label string) GoVal {
 		} else {
 			g.U = rapid.Uint64().Draw(t, label+"_u")
 		}
-	case strings.HasPrefix(g.T, "float"):
+	case strings.HasPrefix(g.T, "float") || g.T == "loudFloat":
 		g.F = rapid.SampledFrom([]float64{0, 1, -1.5, 0.1, 1e-40, 3.4e38, 1e300, 16777217, math.MaxFloat32, math.SmallestNonzeroFloat64}).Draw(t, label+"_f")
+	case g.T == "loudStr" || g.T == "loudSlice":
+		g.S = rapid.SampledFrom([]string{"", "a", "héllo", "b,c"}).Draw(t, label+"_ls")
 	case g.T == "string" || g.T == "myStr":
 		switch rapid.IntRange(0, 3).Draw(t, label+"_smode") {
 		case 0:
@@ -1397,6 +1443,16 @@ func TestValueEdges(t *testing.T) {
 				valProp.One(t, ValCase{V: GoVal{T: "uintslice", L: []GoVal{{T: "uint", U: e}}}, API: api})
 				valProp.One(t, ValCase{V: GoVal{T: "map", L: []GoVal{{T: ty, U: e}}, K: []string{"x"}}, API: api})
 			}
+		}
+		// the loud types, alone and nested, through every API
+		for _, lv := range []GoVal{{T: "loudInt", I: 4}, {T: "loudInt", I: -1}, {T: "loudInt", I: maxSafe + 1}, {T: "loudStr", S: "high"}, {T: "loudStr", S: ""}, {T: "loudSlice", S: "b"}, {T: "loudBool", I: 1}, {T: "loudBool", I: 0}, {T: "loudFloat", F: 2.5}} {
+			for _, ptr := range []bool{false, true} {
+				g := lv
+				g.Ptr = ptr
+				valProp.One(t, ValCase{V: g, API: api})
+			}
+			valProp.One(t, ValCase{V: GoVal{T: "slice", L: []GoVal{lv}, K: []string{"x"}}, API: api})
+			valProp.One(t, ValCase{V: GoVal{T: "map", L: []GoVal{lv}, K: []string{"x"}}, API: api})
 		}
 	}
 	P.SetExhaustive()
